@@ -1,5 +1,6 @@
 """C04 - the compiled integrator performs one_timestep as written (static rules, DESIGN.md C04)."""
 import ast
+import textwrap
 import os
 import re
 import sys
@@ -204,13 +205,32 @@ def rule_helper(chk):
     cls = M.find_class(ih, 'IntegratorCythonHelper')
     # timestep code: source lines of one_timestep minus the def line, no edits
     tc = M.find_func(cls, 'get_timestep_code')
-    src = U(tc)
-    ok = 'self.object.one_timestep' in src and 'inspect.getsourcelines(method)[0]' in src and 'get_func_definition(sourcelines)' in src
-    rets = [r for r in ast.walk(tc) if isinstance(r, ast.Return)]
-    ok = ok and len(rets) == 1 and compact(rets[0].value) == "dedent(''.join(lines))"
-    chk.decide(ok, 'timestep-pasted-verbatim', 'helper', node=tc, file=IH, func='get_timestep_code',
-               detail_bad='the pasted body is not the unmodified source lines of self.object.one_timestep after its definition line',
-               detail_ok="dedent(''.join(lines after the def line))")
+    MODEL = """
+    def one_timestep(self, t, dt,
+                     extra=None):
+        self.initialize()
+        for k in range(2):
+            # a comment that must survive
+            self.compute_accelerations(k)
+        if dt > 0.0:
+            self.stage1()
+        self.update_domain()
+"""
+    try:
+        it0 = EM.interpreter()
+        h0 = EM.instance(it0, IH, 'IntegratorCythonHelper', object=EM.mock(one_timestep=EM.func(MODEL)))
+        text = EM.call(it0, h0, 'get_timestep_code')
+        body = MODEL.strip('\n').splitlines(True)[2:]
+        want = textwrap.dedent(''.join(body))
+        try:
+            ok = isinstance(text, str) and ast.dump(ast.parse(text)) == ast.dump(ast.parse(want))      # same statements; comments / blank lines carry no behaviour
+        except SyntaxError:
+            ok = False
+        chk.decide(ok, 'timestep-pasted-verbatim', 'helper', node=tc, file=IH, func='get_timestep_code',
+                   detail_bad='for a model one_timestep with a two-line signature the pasted body is %r; expected the unmodified, dedented source lines after the definition: %r'
+                              % (text, want), detail_ok="model run: dedent(source lines after the definition), nothing edited")
+    except (AI.Unsupported, AI.Raised) as e:
+        chk.undecided('timestep-pasted-verbatim', 'helper', node=tc, file=IH, func='get_timestep_code', detail='generator not interpretable on the model integrator: %s' % e)
     # what the generators emit for a generic integrator with two destinations whose steppers differ
     sl = M.find_func(cls, 'get_stepper_loop')
     it = EM.interpreter()
